@@ -4,6 +4,8 @@ import (
 	"bytes"
 	"crypto/sha256"
 	"fmt"
+	"github.com/xuperchain/xupercore/bcs/ledger/xledger/tx"
+	"github.com/xuperchain/xupercore/lib/xsimrt"
 	"math/big"
 	"strings"
 	"time"
@@ -30,6 +32,10 @@ type BlockStep struct {
 	KV   bool  `json:"kv"`
 	Full bool  `json:"full"` // enumerate all mutations (else a seeded sample)
 	Pick []int `json:"pick"`
+	// NFail > 0: the producer also formats a block that carries a failed-transaction map of NFail entries
+	// (distinct messages); MapSeed permutes map iteration orders, differently in every epoch
+	NFail   int    `json:"nfail,omitempty"`
+	MapSeed uint64 `json:"map_seed,omitempty"`
 }
 
 // BlockPlan is the plan of one C08 run.
@@ -51,6 +57,13 @@ func GenBlockPlan(rt *rapid.T, tier string) *BlockPlan {
 			b.Pick = append(b.Pick, rapid.IntRange(0, 100000).Draw(rt, "pick"))
 		}
 		pl.Blocks = append(pl.Blocks, b)
+	}
+	// drawn last (earlier draws unchanged): failed-transaction maps and map-order permutation
+	for i := range pl.Blocks {
+		if rapid.IntRange(0, 2).Draw(rt, "failmap") == 2 {
+			pl.Blocks[i].NFail = rapid.IntRange(1, 5).Draw(rt, "nfail")
+			pl.Blocks[i].MapSeed = rapid.Uint64Range(1, 1<<30).Draw(rt, "failmapseed")
+		}
 	}
 	return pl
 }
@@ -168,6 +181,33 @@ func (r *blockRun) doBlock(bs *BlockStep) *Violation {
 	// a block formatted by the node itself always verifies
 	if ok, _ := r.rep.L.VerifyBlock(CloneBlock(honest), "xsim"); !ok {
 		return r.viol("honest-block-rejected", "an intact block of %d transactions formatted by the producer fails VerifyBlock on the replica", len(honest.Transactions))
+	}
+	if bs.NFail > 0 {
+		// the node's own formatting with a failed-transaction map (the rarely used argument of
+		// FormatMinerBlock): the block it signs must verify wherever and whenever its id is recomputed -
+		// map iteration order is permuted anew in every epoch
+		failed := map[string]string{}
+		for i := 0; i < bs.NFail; i++ {
+			failed[fmt.Sprintf("%064x", i*7+1)] = fmt.Sprintf("contract call %d failed: reason %d", i, (i*13)%7)
+		}
+		r.rc.SetMapSeed(bs.MapSeed)
+		xsimrt.SetEpoch(1)
+		tip := p.S.GetLatestBlockid()
+		hdr, _ := p.L.QueryBlockHeader(tip)
+		award, _ := tx.GenerateAwardTx(p.Acct().Addr, "1000000", []byte("award-f"))
+		fb, err := p.L.FormatMinerBlock([]*lpb.Transaction{award}, []byte(p.Acct().Addr), p.Acct().SK, time.Now().UnixNano(), 0, 0, tip, 0, p.S.GetTotal(), nil, failed, hdr.Height+1)
+		if err != nil {
+			return r.viol("honest-block-not-produced", "FormatMinerBlock with a failed-transaction map of %d entries: %v", bs.NFail, err)
+		}
+		for ep := uint64(2); ep <= 6; ep++ {
+			xsimrt.SetEpoch(ep)
+			if ok, _ := r.rep.L.VerifyBlock(CloneBlock(fb), "xsim"); !ok {
+				return r.viol("honest-block-rejected", "a block with a failed-transaction map of %d entries formatted and signed by the producer fails VerifyBlock on the replica (id recomputed in another map iteration order)", bs.NFail)
+			}
+		}
+		xsimrt.SetEpoch(0)
+		r.rc.SetMapSeed(0)
+		r.rc.St.Probes["honest-block-with-failed-tx-map-verified"]++
 	}
 	want := hashedHeader(honest)
 	orig := detMarshal(honest)
